@@ -711,12 +711,12 @@ class Orchestration(Harness):
     prop, ob = PROP, 'O3'
     width = 64
 
-    def __init__(self, skip, client, policy):
-        self.skip, self.client, self.policy = skip, client, policy
-        self.name = 'orchestration-%s-%s-%s' % ('skip' if skip else 'rate', 'client' if client else 'server', 'policy' if policy else 'standard')
+    def __init__(self, skip, client, policy, end='close'):
+        self.skip, self.client, self.policy, self.end = skip, client, policy, end
+        self.name = 'orchestration-%s-%s-%s%s' % ('skip' if skip else 'rate', 'client' if client else 'server', 'policy' if policy else 'standard', '' if end == 'close' else '-' + end)
 
     def params(self):
-        return {'skip': self.skip, 'client': self.client, 'policy': self.policy}
+        return {'skip': self.skip, 'client': self.client, 'policy': self.policy, 'end': self.end}
 
     def inputs(self):
         return {'x': zx.fresh_bytes('x', 1)}
@@ -726,7 +726,8 @@ class Orchestration(Harness):
             zx.cur().stdout = []
         kexl, keyl = ['diffie-hellman-group14-sha256', G256], ['ssh-rsa', 'ssh-ed25519']
         pk = kexinit_pkt(kexl, keyl)
-        conns = [AE.Conn([BANNER, pk])] + [AE.Conn([BANNER, pk, AE.frame(bytes([1]) + inp['x'])]) for _ in range(12)]
+        # probe connections: banner, KEXINIT, one unexpected packet, then the peer closes (or resets) the connection
+        conns = [AE.Conn([BANNER, pk])] + [AE.Conn([BANNER, pk, AE.frame(bytes([1]) + inp['x'])], self.end) for _ in range(12)]
         calls = []
         D = M.dheat.DHEat
         o_rate, o_run, o_init = D.dh_rate_test, D.run, D.__init__
@@ -893,6 +894,8 @@ def tasks(tier):
         for client in (False, True):
             for policy in (False, True):
                 T.append(Orchestration(skip, client, policy))
+    T.append(Orchestration(True, False, False, 'reset'))
+    T.append(Orchestration(True, False, True, 'reset'))
     for ssh1, ssh2 in ((True, True), (True, False), (False, True)):
         T.append(Fallback(ssh1, ssh2, 3 if q else 5))
     for n in range(C_SHIP + 1):
@@ -931,7 +934,7 @@ def harness_by_name(name, params):
     if k == 'fallback':
         return Fallback(p['ssh1'], p['ssh2'], p['n'])
     if k == 'orchestration':
-        return Orchestration(p['skip'], p['client'], p['policy'])
+        return Orchestration(p['skip'], p['client'], p['policy'], p.get('end', 'close'))
     raise KeyError(name)
 
 
